@@ -188,3 +188,22 @@ def cell(net, t, row, col):
     if isinstance(v, np.generic):
         return v.item()
     return v
+
+
+def with_second_supply_area(spec, rng, kw=None):
+    """if part of the net is not reached from any supply (generated island), give it an external grid of its own:
+    two supply areas, so that switching a supply point changes what is calculated while all branch flags stay the
+    same.  Returns (spec, changed)"""
+    from harness import gen
+    net0 = gen.build(spec)
+    probe = copy.deepcopy(net0)
+    if not len(net0.ext_grid) or do_run(probe, kw or {"use_numba": False})[0] != "ok":
+        return spec, False
+    dead = [int(j) for j in probe.res_junction.index[np.isnan(probe.res_junction.p_bar.values)]
+            if bool(probe.junction.at[j, "in_service"])]
+    if not dead:
+        return spec, False
+    eg = net0.ext_grid.iloc[0]
+    op = ["create_ext_grid", {"junction": rng.choice(dead), "p_bar": float(eg.p_bar), "t_k": float(eg.t_k),
+                              "index": int(max(net0.ext_grid.index)) + 1}]
+    return dict(spec, ops=spec["ops"] + [op]), True
